@@ -50,7 +50,7 @@ from vlib import common
 
 RULE = ("retrospective and prospective runs of the real script over a fake pipeline; cases = (mode, batch size, "
         "plates, chains/chunks, publication order variant, marker-first flag, global interruption points); quick: "
-        "every single interruption point for batch 1-4 and <=5 plates (pairs for the smallest configurations) + runs reaching "
+        "every single interruption point for batch 1-4 and <=5 plates (every other pair for the smallest configurations) + runs reaching "
         "iter_10/iter_11 (two-digit directory indices); thorough: every single and every pair of "
         "interruption points, batch 1-4, <=9 plates, both modes; plus random directory trees for `examine`. "
         "Retrospective configurations also publish 0-2 files AFTER the marker (model evaluation: invisible to the script, "
@@ -295,15 +295,24 @@ def script_path():
 _MOD = {}
 
 
-def load_script():
+def load_script(fresh=False):
+    """the script as a module; one module object is REUSED for every case of a check run (module-level state would leak
+    between runs with different output directories); `fresh=True` gives a new module object (= a process restart)"""
     p = script_path()
-    if p not in _MOD:
+    if fresh or p not in _MOD:
         spec = importlib.util.spec_from_file_location("batchie_orchestration_script_c19", p)
         mod = importlib.util.module_from_spec(spec)
         spec.loader.exec_module(mod)
         mod.logger.disabled = True
+        for h in list(mod.logger.handlers):
+            mod.logger.removeHandler(h)
+        if fresh:
+            return mod
         _MOD[p] = mod
     return _MOD[p]
+
+
+EXTRA_ARGS = ["-profile", "c19", "--n_chunks", "3"]     # passed through to every command, must not be touched
 
 
 class Gate:
@@ -392,8 +401,11 @@ class Run:
     """one case: configuration + list of global interruption points (the n-th point counts the atomic actions
     performed since the previous interruption, across calls of the step function)"""
 
-    def __init__(self, cfg, crashes, workdir, pre=0):
+    def __init__(self, cfg, crashes, workdir, pre=0, restart=False):
         self.cfg = cfg
+        self.restart = restart    # a fresh module object for every call after an interruption / exception (process restart)
+        self.extra_bad = None
+        self.saw = set()          # directory states met at the start of a call of the step function
         self.crashes = list(crashes)
         self.pre = pre            # crash-free process runs executed first (prospective: earlier iterations)
         self.root = tempfile.mkdtemp(prefix="c19_", dir=workdir)
@@ -448,6 +460,9 @@ class Run:
                 i += 2
             else:
                 i += 1
+        pos = [i for i in range(len(cmd) - len(EXTRA_ARGS) + 1) if list(cmd[i:i + len(EXTRA_ARGS)]) == EXTRA_ARGS]
+        if len(pos) != 1 and self.extra_bad is None:
+            self.extra_bad = [str(c) for c in cmd][-8:]
         out = opts["--outdir"]
         st = step_of_path(self.outdir, out)
         mode = opts["--mode"]
@@ -518,11 +533,12 @@ class Run:
         return self._process(max_invocations)
 
     def _process(self, max_invocations):
-        mod = load_script()
+        mod = load_script(fresh=self.restart)
         cfg = self.cfg
         step = mod.run_next_retrospective_step if cfg["mode"] == "r" else mod.run_next_prospective_step
         saved = mod.subprocess
         mod.subprocess = types.SimpleNamespace(check_call=self.check_call)
+        extra = list(EXTRA_ARGS)
         pending = list(self.crashes)
         budget = pending.pop(0) if pending else None
         status = "no-termination"
@@ -534,8 +550,19 @@ class Run:
                     g.limit = budget
                     g.active = True
                     self.modelled_done = False
+                    if os.path.isdir(self.outdir):
+                        its = [d for d in os.listdir(self.outdir) if d.startswith("iter_")]
+                        if not its:
+                            self.saw.add("empty-output-dir")
+                        for d in its:
+                            if not os.listdir(os.path.join(self.outdir, d)):
+                                self.saw.add("empty-iteration-dir")
+                                if suffix(d) >= 1:
+                                    self.saw.add("empty-iteration-dir-k>=1")
+                            if suffix(d) >= 10:
+                                self.saw.add("two-digit-iteration")
                     try:
-                        again = step(output_dir=self.outdir, input_screen=self.screen, extra_args=[], batch_size=cfg["B"])
+                        again = step(output_dir=self.outdir, input_screen=self.screen, extra_args=extra, batch_size=cfg["B"])
                         outcome = ("again",) if again else ("halt",)
                     except Interrupt:
                         outcome = ("crash",)
@@ -548,6 +575,14 @@ class Run:
                         outcome = ("failed", type(e).__name__)
                     finally:
                         g.active = False
+                    if extra != EXTRA_ARGS and self.extra_bad is None:
+                        self.extra_bad = list(extra)
+                    if self.restart and outcome[0] not in ("again", "halt"):
+                        mod.subprocess = saved
+                        mod = load_script(fresh=True)
+                        step = mod.run_next_retrospective_step if cfg["mode"] == "r" else mod.run_next_prospective_step
+                        saved = mod.subprocess
+                        mod.subprocess = types.SimpleNamespace(check_call=self.check_call)
                     self.segments[-1] += g.count
                     if outcome[0] == "crash" and self.modelled_done:
                         # interrupted among the invisible late outputs: for the model this call was not interrupted
@@ -652,8 +687,22 @@ def judge(run, ref):
                 out.append(("deleted", "the directory of a completed step is deleted (%s)" % ("by the script's rmtree" if ev[0] == "R" else "on the script's advice"),
                             ev, "completed steps are never removed", None))
                 break
+    if run.extra_bad is not None:
+        out.append(("inputs", "the extra command-line arguments are not passed through to the pipeline unchanged, once, in order",
+                    run.extra_bad, EXTRA_ARGS, None))
     idx = 0
     for st, text, done, l in run.launches:
+        # absolute oracles (hold for the uninterrupted run too): which workflow runs at which step, from which inputs
+        mode_r = run.cfg["mode"] == "r"
+        want_wf = (0 if st == (0, 0) else 1 if st[1] == 0 else 2) if mode_r else (3 if st[1] == 0 else 2)
+        if l["wf"] != want_wf:
+            out.append(("inputs", "the wrong workflow is launched for this step", l["wf"], want_wf, idx))
+        if (l["wf"] in (0, 3) or not mode_r) and l["screen"] is not None:
+            out.append(("inputs", "a step that must start from the user's input screen is started from another file",
+                        show_ref(l["screen"]), "-", idx))
+        if l["wf"] == 1 and (l["test"] is None or (l["test"][0], l["test"][1]) != (0, 0)):
+            out.append(("inputs", "the test screen of a later iteration is not taken from iter_0/plate_0", show_ref(l["test"]),
+                        "a file of step [0, 0]", idx))
         if st not in ref_launch:
             out.append(("extra", "a step is launched that the uninterrupted run never launches", list(st), sorted(ref_launch)[:12], idx))
         elif ref_launch[st] != text:
@@ -692,7 +741,7 @@ def judge(run, ref):
     if run.tree != ref.tree and run.status == "ok":
         out.append(("tree", "the final output directory (recorded selections, screens, markers) differs from the uninterrupted run",
                     run.tree[:600], ref.tree[:600], None))
-    prio = ["deleted", "twice", "skipped", "inputs", "predecessor", "extra", "sequence", "tree", "finish", "reference"]
+    prio = ["deleted", "twice", "skipped", "inputs", "predecessor", "extra", "sequence", "tree", "finish", "state", "reference"]
     out.sort(key=lambda f: prio.index(f[0]))
     return out
 
@@ -738,6 +787,15 @@ def run_case(case, workdir, ref_cache=None):
     run = Run(cfg, crashes, workdir, pre).go()
     run.cleanup()
     return run, ref, judge(run, ref)
+
+
+def state_findings(case, run, workdir):
+    run2 = Run(case["cfg"], case["crashes"], workdir, case.get("pre", 0), restart=True).go()
+    run2.cleanup()
+    if run2.observed() != run.observed():
+        return [("state", "rerunning in a fresh process behaves differently from rerunning in the process that ran "
+                 "earlier cases (module-level state)", run2.observed()[:400], run.observed()[:400], None)]
+    return []
 
 
 # ------------------------------------------------------------------------------------------------------
@@ -856,7 +914,7 @@ def real_examine(mod, outdir, B):
 # ------------------------------------------------------------------------------------------------------
 
 def configs(ctx):
-    """-> list of (cfg, pre, pairs): configuration, crash-free process runs executed first, explore pairs of interruptions"""
+    """-> list of (cfg, pre, pairs): configuration, crash-free process runs executed first, stride over second interruption points (0: singles only)"""
     quick = ctx.tier == "quick" and ctx.mode != "search"
     Bs = (1, 2, 3, 4)
     out = []
@@ -870,19 +928,19 @@ def configs(ctx):
             for extra in ((0,) if quick or P > 4 else (0, 1, 2)):
                 cfg = {"mode": "r", "B": B, "P": P, "nch": 2 if P < 7 else 1, "nck": 2 if P < 5 else 1,
                        "variant": (v + extra) % 3, "mfirst": False, "late": (0, 2, 1)[(v + B + extra) % 3]}
-                out.append((cfg, 0, (not quick) or P <= (3 if B < 4 else 2)))
+                out.append((cfg, 0, 1 if not quick else 2 if P <= (3 if B < 4 else 2) else 0))
             v += 1
         for mfirst in (True, False):
             for pre in (0, 1):
                 cfg = {"mode": "p", "B": B, "P": 3, "nch": 2, "nck": 2, "variant": v % 3, "mfirst": mfirst}
-                out.append((cfg, pre, (not quick) or (pre == 0 and B <= 2)))
+                out.append((cfg, pre, 1 if not quick else 2 if (pre == 0 and B <= 2) else 0))
                 v += 1
     # two-digit iteration indices (iter_10, iter_11 sort after iter_9 only numerically): single interruptions
-    out.append(({"mode": "r", "B": 1, "P": 11, "nch": 1, "nck": 1, "variant": 0, "mfirst": False, "late": 1}, 0, False))
-    out.append(({"mode": "p", "B": 2, "P": 3, "nch": 1, "nck": 1, "variant": 1, "mfirst": False}, 10, False))
+    out.append(({"mode": "r", "B": 1, "P": 11, "nch": 1, "nck": 1, "variant": 0, "mfirst": False, "late": 1}, 0, 0))
+    out.append(({"mode": "p", "B": 2, "P": 3, "nch": 1, "nck": 1, "variant": 1, "mfirst": False}, 10, 0))
     if not quick:
-        out.append(({"mode": "r", "B": 2, "P": 22, "nch": 1, "nck": 1, "variant": 2, "mfirst": False}, 0, False))
-        out.append(({"mode": "p", "B": 3, "P": 3, "nch": 1, "nck": 1, "variant": 2, "mfirst": True}, 11, False))
+        out.append(({"mode": "r", "B": 2, "P": 22, "nch": 1, "nck": 1, "variant": 2, "mfirst": False}, 0, 0))
+        out.append(({"mode": "p", "B": 3, "P": 3, "nch": 1, "nck": 1, "variant": 2, "mfirst": True}, 11, 0))
     return out
 
 
@@ -894,7 +952,25 @@ def explore(cfg, pre, pairs, workdir):
     def one(crashes):
         case = {"cfg": cfg, "crashes": list(crashes), "pre": pre}
         run, ref, findings = run_case(case, workdir, cache)
+        classes = set(run.saw)
+        if cfg["B"] == 1:
+            classes.add("falsy.batch-size-1")
+        if cfg["mode"] == "r" and run.status == "ok":
+            classes.add("falsy.zero-plates-remaining")
+        if any(st[1] >= 2 for st, _t, _d, _l in run.launches):
+            classes.add("size.plate-index>=2")
+        if any(l["wf"] == 2 and l["excludes"] and len(l["excludes"]) >= 2 for _s, _t, _d, l in run.launches):
+            classes.add("size.excludes>=2")
+        if len(crashes) == 1 and crashes[0] % 5 == 0 or not crashes:
+            # object/state reuse: the same case with a fresh module object after every interruption / exception (a process
+            # restart) must behave exactly like the rerun inside the long-lived module used for all other cases
+            classes.add("state-reuse.module-vs-restart")
+            sf = state_findings(case, run, workdir)
+            if sf:
+                case = dict(case, state_check=True)
+                findings = findings + sf
         results.append({"case": case, "line": run.driver_line(), "observed": run.observed(), "findings": findings,
+                        "classes": sorted(classes),
                         "sig": [signature(run, f) for f in findings], "nontrivial": run.hit_after_outdir,
                         "segments": run.segments, "window": run.in_window, "late_window": run.late_window,
                         "late_lost": ref.late_published - run.late_published if run.status == "ok" else 0})
@@ -910,7 +986,7 @@ def explore(cfg, pre, pairs, workdir):
     for g1 in range(n):
         r1, _ = one([g1])
         if pairs and len(r1.segments) > 1:
-            for g2 in range(r1.segments[1]):
+            for g2 in range(g1 % pairs, r1.segments[1], pairs):     # pairs = stride (1: every pair; quick tier: 2)
                 one([g1, g2])
                 if new_failures() >= 5:
                     return results      # enough concrete replays for this configuration
@@ -951,6 +1027,10 @@ def run(ctx, res):
                 nc = len(r["case"]["crashes"])
                 res.count("interruptions.%d" % nc)
                 res.count("batch.%d" % cfg["B"])
+                for c in r["classes"]:
+                    res.count("class." + c)
+                res.count("class.orderings.publication-order-%d" % (cfg["variant"] % 3))
+                res.count("class.input-mutation.extra-args")
                 if r["window"]:
                     res.count("interruption inside the prospective marker window")
                 if r["late_window"]:
@@ -988,6 +1068,7 @@ def run(ctx, res):
             shutil.rmtree(d, ignore_errors=True)
             res.evaluations += 1
             res.count("examine." + got.split(" ")[0])
+            res.count("class.orderings.directories-created-out-of-order")
             if "|" in text:
                 res.nontrivial.add(("tree", B, text))
             lines.append("examine %d 0 %s" % (B, text))
@@ -1026,7 +1107,9 @@ def replay(ctx, case, res):
                 res.fail("an empty iteration directory makes the script re-run a completed step", case, got, "ok 1 0 ...",
                          signature="C19:empty-iteration-directory")
             return
-        run, ref, findings = run_case(case, base)
+        run, ref, findings = run_case(case, base)      # (the reference run before it has already used the module object)
+        if case.get("state_check"):
+            findings = findings + state_findings(case, run, base)
         for f in findings:
             res.fail("%s [%s]" % (f[1], describe(case["cfg"])), case, f[2], f[3], signature=signature(run, f))
     finally:
